@@ -365,6 +365,19 @@ def main():
     except Exception as e:
         status['specs'] = 'failed: %s' % e
     try:
+        import masks
+        g2 = dict(golden)
+        txt, mst = masks.lean_file(g2)
+        changed |= write_if_changed(os.path.join(GEN, 'Masks.lean'), txt)
+        for k_, v_ in mst.items():
+            status['functions'][k_] = dict(v_, module='ixpeobssim.evt.subselect', lean=k_, params=[], bools=[], selfattrs=[], absparams=[], nret=1, notes=[], abscalls=[])
+        if update:
+            for k_, v_ in g2.items():
+                if k_.startswith('mask:'):
+                    golden[k_] = v_
+    except Exception as e:
+        status['masks'] = 'failed: %s' % e
+    try:
         import cachesites
         txt, sites = cachesites.lean_table(os.environ.get('IXPE_REPO', os.path.dirname(os.path.dirname(importlib.import_module('ixpeobssim').__file__))))
         changed |= write_if_changed(os.path.join(GEN, 'CacheSites.lean'), txt)
